@@ -218,6 +218,7 @@ PROPS = {
         tests=[
             dict(name="TestRecording", quick=3000, thorough=600000, shards_thorough=8),
             dict(name="TestOTel", quick=1000, thorough=160000, shards_thorough=8),
+            dict(name="TestOTelStress", quick=16, thorough=200, shards_thorough=8, shrinktime="10s"),
         ],
     ),
     "C14": dict(
